@@ -7,7 +7,7 @@
    naming known or unknown users and channels.  A Go panic (nil map entry dereference,
    index out of range) is the explicit result `Panic`.  `Inv` is the structural
    consistency statement of the property (C05_inv_meaning spells it out). *)
-Require Import Bytes AMap Names State OrderLemmas StateInv StateHandlers ClientStep ClientStepProofs.
+Require Import Bytes AMap Names State OrderLemmas StateInv StateHandlers StatePerms ClientStep ClientStepProofs.
 Require Ctcp Sasl Cap StsState.
 
 (* Inv is exactly the property's consistency clause *)
@@ -70,7 +70,8 @@ Print Assumptions C05_populated_example.
    client_step (Model/ClientStep.v) = the tracked-state handlers, then handleSASL /
    handleSASLError, handleCAP and the CTCP stage of RunHandlers with the default
    repliers (the models of C09, C08 and C14, used unchanged).  The one hypothesis:
-   Client.conn is non-nil while the event is handled (see C05_finger_after_disconnect). *)
+   Client.conn is non-nil while the event is handled (Model/Ctcp.v still has the FINGER
+   replier dereference it; /repo 187fc3e made the replier return instead). *)
 Theorem C05_client_no_panic : forall cfg cs e, Inv (cs_state cs) -> Ctcp.connected (cc_env cfg) = true ->
   client_step cfg cs e <> Panic.
 Proof. exact client_step_no_panic. Qed.
@@ -81,11 +82,19 @@ Theorem C05_client_all_histories : forall cfg sts h, Ctcp.connected (cc_env cfg)
 Proof. exact client_all_histories. Qed.
 Print Assumptions C05_client_all_histories.
 
-(* The hypothesis cannot be dropped: the default FINGER replier runs in a goroutine of its
-   own and dereferences Client.conn, which Connect sets to nil when it returns; a request
-   still in flight when the connection ends panics outside every recover (finding, see
-   notes/design/C05.md). *)
-Theorem C05_finger_after_disconnect : forall cfg cs, Ctcp.connected (cc_env cfg) = false ->
-  Inv (cs_state cs) -> client_step cfg cs finger_request = Panic.
-Proof. exact finger_after_disconnect_panics. Qed.
-Print Assumptions C05_finger_after_disconnect.
+(* ---- the permission maps (not part of the property's text; the design added the clause
+   "the keys of a user's permission map are exactly its ChannelList") ----
+   Full clause:  forall reachable s, ku, u, cn:
+       alookup ku (st_users s) = Some u -> (In cn (u_chans u) <-> alookup cn (u_perms u) <> None).
+   Proved: the direction "every listed channel has an entry".  The other direction is false
+   of the code as it is: handleMODE stores an entry for any tracked user named in a
+   channel-mode change, member of that channel or not (finding mode-perms-for-non-member). *)
+Theorem C05_perms_cover_partial : forall cfg h s o, run cfg state_init h = Ok (s, o) ->
+  forall ku u cn, alookup ku (st_users s) = Some u -> In cn (u_chans u) -> alookup cn (u_perms u) <> None.
+Proof. exact all_histories_cover_flat. Qed.
+Print Assumptions C05_perms_cover_partial.
+
+Theorem C05_perms_only_listed_refuted : exists s o, run ex_cfg state_init perms_history = Ok (s, o) /\
+  ~ (forall ku u cn, alookup ku (st_users s) = Some u -> alookup cn (u_perms u) <> None -> In cn (u_chans u)).
+Proof. exact perms_only_listed_refuted. Qed.
+Print Assumptions C05_perms_only_listed_refuted.
